@@ -25,6 +25,11 @@
 //! the faulting call returns, i.e. before the fault is reported; every later `execute_cycle`
 //! returns `ResourceFaulted`, leaves the variable storage digest and the output image
 //! unchanged and calls no driver; `restart` clears the latch.
+//!
+//! The history then continues on the SAME runtime: after a warm restart, a cold restart or
+//! `clear_fault()` a second (and for half of the points a third) fault of a kind taken from a
+//! reduced grid is injected and the whole oracle is applied again - a fault after a recovery
+//! must latch, report itself and force the outputs exactly like the first one.
 
 use std::collections::BTreeSet;
 use std::sync::{Arc, Mutex};
@@ -51,17 +56,18 @@ pub fn info() -> PropertyInfo {
     PropertyInfo {
         id: "C08",
         level: "fault_enumeration",
-        rule: "one case = one fault point (site statement x cycle | driver read/write error x driver x cycle | watchdog_timeout / simulation_fault after c cycles) x failing-delivery driver x fault policy x watchdog action, enumerated exhaustively for each generated program (<= 12 site statements over 1-3 tasks + background programs, nested FUNCTION/FB calls) with its generated safe-state map and 1-3 logging drivers; non-trivial = the fault point lies inside a nested call or in a program that is not the first to run in the faulting cycle, or >= 2 drivers are attached, or a safe-state address overlaps a program output; distinct by SHA-256 of (program source, safe map, fault point)",
+        rule: "one case = one fault history on one runtime: the FIRST fault is a fault point (site statement x cycle | driver read/write error x driver x cycle | watchdog_timeout / simulation_fault after c cycles) x failing-delivery driver x fault policy x watchdog action, enumerated exhaustively for each generated program (<= 12 site statements over 1-3 tasks + background programs, nested FUNCTION/FB calls) with its generated safe-state map and 1-3 logging drivers; it is followed by 1-2 further faults on the same runtime (reduced grid over recovery route {warm restart, cold restart, clear_fault} x fault kind x cycle x failing-delivery driver), each checked with the same oracle; non-trivial = the first fault point lies inside a nested call or in a program that is not the first to run in the faulting cycle, or >= 2 drivers are attached, or a safe-state address overlaps a program output; distinct by SHA-256 of (program source, safe map, fault history)",
         assumptions: &[
             "an I/O driver 'with policy fault' is one whose read_inputs/write_outputs returns Err (io/modbus.rs handle_error: on_error=fault returns RuntimeError::IoDriver, warn/ignore return Ok); the logging drivers model exactly that",
             "'delivered to every driver' = write_outputs was invoked on the driver with an image holding the safe values, whether or not that driver then reports an error",
             "safe-state maps are well-typed per address size (what config.rs parse_io_value produces), use flat %Q addresses only and do not contain two entries for the same bits",
             "watchdog_timeout() and simulation_fault() are injected between cycles, the way scheduler.rs / simulation.rs call them",
+            "Runtime::clear_fault() is not named by the property: it is used only as a further route to a later fault (nothing is asserted about clear_fault itself; if it leaves the resource faulted the history ends without a verdict)",
         ],
         workers_quick: 8,
         workers_thorough: 16,
         address_space_limit: 0,
-        watchdog_quick_s: 900,
+        watchdog_quick_s: 1800,
         watchdog_thorough_s: 7200,
         run,
     }
@@ -591,13 +597,39 @@ pub struct Point {
     pub watchdog: Pol,
     /// a driver whose write_outputs fails from the fault on, i.e. during safe-state delivery
     pub deliver_fail: Option<u8>,
+    /// mode of the final restart (after the last fault of the history)
     pub warm_restart: bool,
+    /// further faults on the same runtime, each after a recovery from the previous one
+    #[serde(default)]
+    pub more: Vec<Next>,
+}
+
+#[derive(Clone, Copy, Debug, PartialEq, Eq, Serialize, Deserialize)]
+pub enum Via {
+    RestartWarm,
+    RestartCold,
+    /// `Runtime::clear_fault()` - not named by the property; only a route to another fault
+    ClearFault,
+}
+
+#[derive(Clone, Debug, PartialEq, Eq, Serialize, Deserialize)]
+pub struct Next {
+    pub via: Via,
+    pub kind: Kind,
+    /// 1..=3: the fault cause is made present after `cycle - 1` clean cycles
+    pub cycle: u8,
+    pub deliver_fail: Option<u8>,
 }
 
 #[derive(Clone, Debug, Serialize, Deserialize)]
 pub struct PointCase {
     pub tape: Tape,
     pub point: Point,
+    /// replay files only: the safe-state map the tape is meant to generate; if the generator
+    /// is changed and the tape no longer means that, the replay is reported (exit 2)
+    /// instead of silently testing something else
+    #[serde(default)]
+    pub expect_map: Option<String>,
 }
 
 // ---------------------------------------------------------------------------------------
@@ -783,11 +815,21 @@ fn enumerate_points(model: &Model, runs: &[Vec<bool>]) -> Vec<Point> {
     }
     let mut out = Vec::new();
     let mut flip = false;
+    let mut c: usize = 0;
     for (kind, cycle, delivers) in kinds {
         for deliver_fail in delivers {
             for policy in [Pol::Halt, Pol::SafeHalt] {
                 for watchdog in [Pol::Halt, Pol::SafeHalt] {
                     flip = !flip;
+                    // The first fault is enumerated exhaustively; the continuation (1 or 2
+                    // further faults on the same runtime) walks a reduced grid: a mixed-radix
+                    // counter over the points of this program, so that every (route, kind)
+                    // pair follows every kind of first fault many times.
+                    let extra = 1 + (c / 45) % 2;
+                    let more = (0..extra)
+                        .map(|r| continuation(model, c.wrapping_mul(1 + 30 * r).wrapping_add(17 * r)))
+                        .collect();
+                    c += 1;
                     out.push(Point {
                         kind: kind.clone(),
                         cycle,
@@ -795,12 +837,45 @@ fn enumerate_points(model: &Model, runs: &[Vec<bool>]) -> Vec<Point> {
                         watchdog,
                         deliver_fail,
                         warm_restart: flip,
+                        more,
                     });
                 }
             }
         }
     }
     out
+}
+
+/// Element `c` of the reduced continuation grid (deterministic, no randomness).
+fn continuation(model: &Model, c: usize) -> Next {
+    let nd = model.ndrivers;
+    let ns = model.sites.len();
+    let kind = match c % 5 {
+        0 => Kind::Site { site: ((c / 5).wrapping_mul(7).wrapping_add(c / 15) % ns) as u8 },
+        1 => Kind::Read { driver: ((c / 5) % nd) as u8, dead: (c / 10) % 2 == 1 },
+        2 => Kind::Write { driver: ((c / 5) % nd) as u8, dead: (c / 10) % 2 == 1 },
+        3 => Kind::Watchdog,
+        _ => Kind::Sim,
+    };
+    let via = match (c / 5) % 3 {
+        0 => Via::RestartWarm,
+        1 => Via::RestartCold,
+        _ => Via::ClearFault,
+    };
+    let cycle = 1 + ((c / 15) % 3) as u8;
+    // a failing delivery driver only where the next write_outputs of that driver can be the
+    // safe delivery or the publish of the faulting cycle (either way it is a fault)
+    let deliver_fail = match kind {
+        Kind::Read { .. } | Kind::Write { .. } => None,
+        _ if (c / 3) % 3 == 0 => Some(((c / 9) % nd) as u8),
+        _ => None,
+    };
+    Next {
+        via,
+        kind,
+        cycle,
+        deliver_fail,
+    }
 }
 
 fn describe(model: &Model, point: &Point) -> String {
@@ -817,20 +892,245 @@ fn describe(model: &Model, point: &Point) -> String {
     )
 }
 
-/// Run one fault point against a fresh runtime and check the oracle.
+/// Run one fault history against a fresh runtime and check the oracle.
 fn check_point(model: &Model, point: &Point, probe: &mut Probe) -> Result<(), String> {
     check_point_inner(model, point, probe).map_err(|m| format!("{m}\n--- {}", describe(model, point)))
+}
+
+struct Session<'a> {
+    h: TestHarness,
+    shared: Arc<Mutex<Shared>>,
+    model: &'a Model,
+    nd: usize,
+    policy: Pol,
+}
+
+fn kind_fits(kind: &Kind, deliver_fail: Option<u8>, cycle: u8, model: &Model) -> bool {
+    let nd = model.ndrivers;
+    (match kind {
+        Kind::Site { site } => (*site as usize) < model.sites.len(),
+        Kind::Read { driver, .. } | Kind::Write { driver, .. } => (*driver as usize) < nd,
+        _ => true,
+    }) && deliver_fail.map(|d| (d as usize) < nd).unwrap_or(true)
+        && (1..=FAULT_CYCLES).contains(&cycle)
+}
+
+fn kind_label(kind: &Kind) -> &'static str {
+    match kind {
+        Kind::Site { .. } => "runtime_error",
+        Kind::Read { dead: false, .. } => "driver_read_error_transient",
+        Kind::Read { dead: true, .. } => "driver_read_error_dead",
+        Kind::Write { dead: false, .. } => "driver_write_error_transient",
+        Kind::Write { dead: true, .. } => "driver_write_error_dead",
+        Kind::Watchdog => "watchdog_timeout",
+        Kind::Sim => "simulation_fault",
+    }
+}
+
+fn error_label(e: &RuntimeError) -> String {
+    if let RuntimeError::IoDriver(m) = e {
+        return if m.contains("read") { "IoDriver(read_inputs)" } else { "IoDriver(write_outputs)" }.to_string();
+    }
+    let s = format!("{e:?}");
+    s.split(['(', ' ', '{']).next().unwrap_or("").to_string()
+}
+
+impl Session<'_> {
+    /// Make the fault cause of `kind` present (and the failing delivery driver, if any).
+    fn arm(&mut self, kind: &Kind, deliver_fail: Option<u8>) {
+        match kind {
+            Kind::Site { site } => {
+                let s = &self.model.sites[*site as usize];
+                self.h
+                    .runtime_mut()
+                    .storage_mut()
+                    .set_global(s.ctl.as_str(), Value::DInt(s.fault_value));
+            }
+            Kind::Read { driver, dead } => {
+                let mut s = self.shared.lock().unwrap();
+                s.read_mode[*driver as usize] = if *dead { Mode::FailAlways } else { Mode::FailOnce };
+                if *dead {
+                    s.write_mode[*driver as usize] = Mode::FailAlways;
+                }
+            }
+            Kind::Write { driver, dead } => {
+                let mut s = self.shared.lock().unwrap();
+                // dead = the driver dies AT the publish: this and every later write fails (the
+                // safe delivery too); its reads must not fail before the publish is reached
+                s.write_mode[*driver as usize] = if *dead { Mode::FailAlways } else { Mode::FailOnce };
+            }
+            Kind::Watchdog | Kind::Sim => {}
+        }
+        if let Some(d) = deliver_fail {
+            self.shared.lock().unwrap().write_mode[d as usize] = Mode::FailAlways;
+        }
+    }
+
+    /// Remove every fault cause, so that a cycle that did run would succeed, change
+    /// counters and call drivers.
+    fn heal(&mut self, kind: &Kind) {
+        {
+            let mut guard = self.shared.lock().unwrap();
+            let s = &mut *guard;
+            for m in s.read_mode.iter_mut().chain(s.write_mode.iter_mut()) {
+                *m = Mode::Ok;
+            }
+        }
+        if let Kind::Site { site } = kind {
+            let s = &self.model.sites[*site as usize];
+            self.h
+                .runtime_mut()
+                .storage_mut()
+                .set_global(s.ctl.as_str(), Value::DInt(if s.form == Form::Index { 0 } else { 1 }));
+        }
+    }
+
+    fn events(&self) -> usize {
+        self.shared.lock().unwrap().events.len()
+    }
+
+    /// The oracle for the moment a fault has just been reported and for the cycle requests
+    /// that follow. `round` is 1 for the first fault of the runtime's life.
+    fn verify_fault(&mut self, round: usize, kind: &Kind, reported: &RuntimeError) -> Result<(), String> {
+        let model = self.model;
+        let nd = self.nd;
+        let tag = if round == 1 { String::new() } else { format!("[fault #{round} of this runtime] ") };
+        let events_at_report = self.events();
+        let rt = self.h.runtime();
+        if matches!(reported, RuntimeError::ResourceFaulted) {
+            return Err(format!(
+                "{tag}the faulting call itself reported ResourceFaulted although the resource was not faulted before"
+            ));
+        }
+        if !rt.faulted() {
+            return Err(format!(
+                "{tag}after the fault {reported:?} was reported, faulted() is false (last_fault() = {:?})",
+                rt.last_fault()
+            ));
+        }
+        if rt.last_fault() != Some(reported) {
+            return Err(format!(
+                "{tag}after the fault {reported:?} was reported, last_fault() is {:?}",
+                rt.last_fault()
+            ));
+        }
+        let safe_due = match (kind, reported) {
+            // watchdog action halt and safe_halt both apply the safe state
+            (Kind::Watchdog, _) | (_, RuntimeError::WatchdogTimeout) => true,
+            _ => self.policy == Pol::SafeHalt,
+        };
+        let check_safe = |rt: &Runtime, when: &str| -> Result<(), String> {
+            for e in &model.safe {
+                match rt.io().read(&e.addr) {
+                    Ok(v) if v == e.value => {}
+                    other => {
+                        return Err(format!(
+                            "{tag}{when}: safe-state address {} reads {:?} from the output image {:?}, safe value is {:?}",
+                            e.text,
+                            other,
+                            rt.io().outputs(),
+                            e.value
+                        ));
+                    }
+                }
+            }
+            Ok(())
+        };
+        if safe_due {
+            check_safe(rt, "when the fault is reported")?;
+            if !model.safe.is_empty() {
+                let s = self.shared.lock().unwrap();
+                for d in 0..nd {
+                    let last = s.events.iter().rev().find_map(|ev| match ev {
+                        Event::Write { driver, payload } if *driver == d => Some(payload),
+                        _ => None,
+                    });
+                    let Some(payload) = last else {
+                        return Err(format!(
+                            "{tag}driver {d} never received an output image although the safe state is due (fault {reported:?})"
+                        ));
+                    };
+                    for e in &model.safe {
+                        let got = read_from_payload(payload, &e.addr);
+                        if got.as_ref() != Ok(&e.value) {
+                            return Err(format!(
+                                "{tag}when the fault {reported:?} is reported, the last image driver {d} received is {:?}: address {} holds {:?}, safe value is {:?} (output image: {:?})",
+                                payload,
+                                e.text,
+                                got,
+                                e.value,
+                                rt.io().outputs()
+                            ));
+                        }
+                    }
+                }
+            }
+        }
+        let at_fault = counters(rt, model);
+
+        // ---- later cycle requests -----------------------------------------------------
+        self.heal(kind);
+        let digest0 = storage_digest(self.h.runtime());
+        let image0 = self.h.runtime().io().outputs().to_vec();
+        for later in 1..=LATER_CYCLES {
+            self.h.advance_time(Duration::from_millis(STEP_MS));
+            let res = self.h.runtime_mut().execute_cycle();
+            let rt = self.h.runtime();
+            if res != Err(RuntimeError::ResourceFaulted) {
+                return Err(format!(
+                    "{tag}cycle request {later} after the fault {reported:?} returned {res:?}, expected Err(ResourceFaulted)"
+                ));
+            }
+            if !rt.faulted() {
+                return Err(format!("{tag}faulted() became false after refused cycle request {later}"));
+            }
+            let now = counters(rt, model);
+            if now != at_fault {
+                return Err(format!(
+                    "{tag}refused cycle request {later} executed program statements: site counters {at_fault:?} -> {now:?}"
+                ));
+            }
+            if storage_digest(rt) != digest0 {
+                return Err(format!(
+                    "{tag}refused cycle request {later} changed a variable (storage digest differs)"
+                ));
+            }
+            if rt.io().outputs() != image0.as_slice() {
+                return Err(format!(
+                    "{tag}refused cycle request {later} changed the output image {:?} -> {:?}",
+                    image0,
+                    rt.io().outputs()
+                ));
+            }
+            if self.events() != events_at_report {
+                let s = self.shared.lock().unwrap();
+                return Err(format!(
+                    "{tag}refused cycle request {later} called a driver: {:?}",
+                    &s.events[events_at_report..]
+                ));
+            }
+            if safe_due {
+                check_safe(rt, "after a refused cycle request")?;
+            }
+        }
+        Ok(())
+    }
+}
+
+/// Outcome of a later round that gives no verdict (the property is silent there).
+enum RoundEnd {
+    Checked,
+    NoVerdict(&'static str),
 }
 
 fn check_point_inner(model: &Model, point: &Point, probe: &mut Probe) -> Result<(), String> {
     let nd = model.ndrivers;
     // a replayed/hand-written point may not fit the program: that is not a violation
-    let fits = match &point.kind {
-        Kind::Site { site } => (*site as usize) < model.sites.len(),
-        Kind::Read { driver, .. } | Kind::Write { driver, .. } => (*driver as usize) < nd,
-        _ => true,
-    } && point.deliver_fail.map(|d| (d as usize) < nd).unwrap_or(true)
-        && (1..=FAULT_CYCLES).contains(&point.cycle);
+    let fits = kind_fits(&point.kind, point.deliver_fail, point.cycle, model)
+        && point
+            .more
+            .iter()
+            .all(|n| kind_fits(&n.kind, n.deliver_fail, n.cycle, model));
     if !fits {
         probe.label("point_does_not_fit_program");
         return Ok(());
@@ -873,48 +1173,26 @@ fn check_point_inner(model: &Model, point: &Point, probe: &mut Probe) -> Result<
             );
         }
     }
-
-    let arm_delivery = |shared: &Arc<Mutex<Shared>>| {
-        if let Some(d) = point.deliver_fail {
-            shared.lock().unwrap().write_mode[d as usize] = Mode::FailAlways;
-        }
+    let mut sess = Session {
+        h,
+        shared,
+        model,
+        nd,
+        policy: point.policy,
     };
 
-    // ---- run up to the fault --------------------------------------------------------
+    // ---- round 1: run up to the first fault ---------------------------------------------
     let in_cycle = matches!(point.kind, Kind::Site { .. } | Kind::Read { .. } | Kind::Write { .. });
     let mut before_fault_cycle: Vec<i64> = Vec::new();
     let mut reported: Option<RuntimeError> = None;
     for c in 1..=point.cycle {
-        h.advance_time(Duration::from_millis(STEP_MS));
+        sess.h.advance_time(Duration::from_millis(STEP_MS));
         let faulting = in_cycle && c == point.cycle;
         if faulting {
-            match &point.kind {
-                Kind::Site { site } => {
-                    let s = &model.sites[*site as usize];
-                    h.runtime_mut()
-                        .storage_mut()
-                        .set_global(s.ctl.as_str(), Value::DInt(s.fault_value));
-                }
-                Kind::Read { driver, dead } => {
-                    let mut s = shared.lock().unwrap();
-                    s.read_mode[*driver as usize] = if *dead { Mode::FailAlways } else { Mode::FailOnce };
-                    if *dead {
-                        s.write_mode[*driver as usize] = Mode::FailAlways;
-                    }
-                }
-                Kind::Write { driver, dead } => {
-                    let mut s = shared.lock().unwrap();
-                    s.write_mode[*driver as usize] = if *dead { Mode::FailAlways } else { Mode::FailOnce };
-                    if *dead {
-                        s.read_mode[*driver as usize] = Mode::FailAlways;
-                    }
-                }
-                _ => {}
-            }
-            arm_delivery(&shared);
-            before_fault_cycle = counters(h.runtime(), model);
+            sess.arm(&point.kind, point.deliver_fail);
+            before_fault_cycle = counters(sess.h.runtime(), model);
         }
-        let res = h.runtime_mut().execute_cycle();
+        let res = sess.h.runtime_mut().execute_cycle();
         match (faulting, res) {
             (false, Ok(())) => {}
             (false, Err(e)) => {
@@ -925,113 +1203,40 @@ fn check_point_inner(model: &Model, point: &Point, probe: &mut Probe) -> Result<
             (true, Ok(())) => {
                 return Err(format!(
                     "the injected fault did not surface: execute_cycle returned Ok in cycle {c} and faulted()={}",
-                    h.runtime().faulted()
+                    sess.h.runtime().faulted()
                 ));
             }
             (true, Err(e)) => reported = Some(e),
         }
     }
     if !in_cycle {
-        arm_delivery(&shared);
-        before_fault_cycle = counters(h.runtime(), model);
-        let rt = h.runtime_mut();
+        sess.arm(&point.kind, point.deliver_fail);
+        before_fault_cycle = counters(sess.h.runtime(), model);
+        let rt = sess.h.runtime_mut();
         reported = Some(match point.kind {
             Kind::Watchdog => rt.watchdog_timeout(),
             _ => rt.simulation_fault("injected by C08"),
         });
     }
     let reported = reported.expect("a fault was injected");
-    // ---- the fault has just been reported -------------------------------------------
-    let events_at_report = shared.lock().unwrap().events.len();
-    let rt = h.runtime();
-    let err_label = format!("{reported:?}");
-    let err_label = err_label.split(['(', ' ', '{']).next().unwrap_or("").to_string();
-    probe.label(format!("error={err_label}"));
-    match (&point.kind, &reported) {
-        (_, RuntimeError::ResourceFaulted) => {
-            return Err("the faulting call itself reported ResourceFaulted although the resource was not faulted before".into());
-        }
-        (Kind::Site { .. }, RuntimeError::IoDriver(_)) => {
-            return Err(format!(
-                "the injected runtime error did not surface: the cycle reached the output publish and reported {reported:?}"
-            ));
-        }
-        _ => {}
-    }
-    if !rt.faulted() {
-        return Err(format!("after the fault {reported:?} was reported, faulted() is false"));
-    }
-    if rt.last_fault() != Some(&reported) {
+    probe.label(format!("error={}", error_label(&reported)));
+    if let (Kind::Site { .. }, RuntimeError::IoDriver(_)) = (&point.kind, &reported) {
         return Err(format!(
-            "after the fault {reported:?} was reported, last_fault() is {:?}",
-            rt.last_fault()
+            "the injected runtime error did not surface: the cycle reached the output publish and reported {reported:?}"
         ));
     }
+    let at_fault = counters(sess.h.runtime(), model);
+    sess.verify_fault(1, &point.kind, &reported)?;
 
-    let safe_due = match point.kind {
-        Kind::Watchdog => true, // watchdog action halt and safe_halt both apply the safe state
-        _ => point.policy == Pol::SafeHalt,
-    };
-    let check_safe = |rt: &Runtime, when: &str| -> Result<(), String> {
-        for e in &model.safe {
-            match rt.io().read(&e.addr) {
-                Ok(v) if v == e.value => {}
-                other => {
-                    return Err(format!(
-                        "{when}: safe-state address {} reads {:?} from the output image {:?}, safe value is {:?}",
-                        e.text,
-                        other,
-                        rt.io().outputs(),
-                        e.value
-                    ));
-                }
-            }
-        }
-        Ok(())
-    };
-    if safe_due {
-        check_safe(rt, "when the fault is reported")?;
-        if !model.safe.is_empty() {
-            let s = shared.lock().unwrap();
-            for d in 0..nd {
-                let last = s.events.iter().rev().find_map(|ev| match ev {
-                    Event::Write { driver, payload } if *driver == d => Some(payload),
-                    _ => None,
-                });
-                let Some(payload) = last else {
-                    return Err(format!(
-                        "driver {d} never received an output image although the safe state is due (fault {reported:?})"
-                    ));
-                };
-                for e in &model.safe {
-                    let got = read_from_payload(payload, &e.addr);
-                    if got.as_ref() != Ok(&e.value) {
-                        return Err(format!(
-                            "when the fault {reported:?} is reported, the last image driver {d} received is {:?}: address {} holds {:?}, safe value is {:?} (output image: {:?})",
-                            payload,
-                            e.text,
-                            got,
-                            e.value,
-                            rt.io().outputs()
-                        ));
-                    }
-                }
-            }
-        }
-    }
-
-    // classification (empirical: which other programs ran in the faulting cycle)
-    let at_fault = counters(rt, model);
-    let fault_prog = match &point.kind {
-        Kind::Site { site } => Some(model.sites[*site as usize].prog),
-        _ => None,
-    };
+    // classification of the first fault (empirical: which other programs ran in the faulting cycle)
+    let safe_due = matches!(point.kind, Kind::Watchdog) || point.policy == Pol::SafeHalt;
     let mut nontrivial = nd >= 2;
     if nd >= 2 {
         probe.label("class=ge2_drivers");
     }
-    if let (Some(fp), Kind::Site { site }) = (fault_prog, &point.kind) {
+    if let Kind::Site { site } = &point.kind {
         let s = &model.sites[*site as usize];
+        let fp = s.prog;
         probe.label(format!("form={}", s.form.name()));
         if s.form.depth() >= 1 {
             probe.label(format!("class=nested_call_depth{}", s.form.depth()));
@@ -1062,15 +1267,7 @@ fn check_point_inner(model: &Model, point: &Point, probe: &mut Probe) -> Result<
         probe.label("class=safe_address_overlaps_program_output");
         nontrivial = true;
     }
-    probe.label(match &point.kind {
-        Kind::Site { .. } => "kind=runtime_error",
-        Kind::Read { dead: false, .. } => "kind=driver_read_error_transient",
-        Kind::Read { dead: true, .. } => "kind=driver_read_error_dead",
-        Kind::Write { dead: false, .. } => "kind=driver_write_error_transient",
-        Kind::Write { dead: true, .. } => "kind=driver_write_error_dead",
-        Kind::Watchdog => "kind=watchdog_timeout",
-        Kind::Sim => "kind=simulation_fault",
-    });
+    probe.label(format!("kind={}", kind_label(&point.kind)));
     probe.label(format!("policy={:?}/watchdog={:?}", point.policy, point.watchdog));
     probe.label(if safe_due { "safe_state=due" } else { "safe_state=not_due" });
     probe.label(format!("drivers={nd}"));
@@ -1080,101 +1277,167 @@ fn check_point_inner(model: &Model, point: &Point, probe: &mut Probe) -> Result<
         probe.label("class=a_driver_fails_during_safe_delivery");
     }
 
-    // ---- later cycle requests ---------------------------------------------------------
-    // Remove every fault cause first, so that a cycle that did run would succeed, change
-    // counters and call drivers.
-    {
-        let mut guard = shared.lock().unwrap();
-        let s = &mut *guard;
-        for m in s.read_mode.iter_mut().chain(s.write_mode.iter_mut()) {
-            *m = Mode::Ok;
+    // ---- rounds 2..: recover, fault again, same oracle -------------------------------------
+    let mut rounds_checked = 1usize;
+    for (i, next) in point.more.iter().enumerate() {
+        let round = i + 2;
+        match later_round(&mut sess, round, next, probe)? {
+            RoundEnd::Checked => rounds_checked = round,
+            RoundEnd::NoVerdict(why) => {
+                probe.label(format!("round{round}_no_verdict={why}"));
+                // the history cannot be continued meaningfully; the rounds before it count
+                if nontrivial {
+                    mark_nontrivial(model, point, nd, &reported, probe);
+                }
+                probe.label(format!("rounds_checked={rounds_checked}"));
+                return Ok(());
+            }
         }
     }
-    if let Kind::Site { site } = &point.kind {
-        let s = &model.sites[*site as usize];
-        h.runtime_mut()
-            .storage_mut()
-            .set_global(s.ctl.as_str(), Value::DInt(if s.form == Form::Index { 0 } else { 1 }));
-    }
-    let digest0 = storage_digest(h.runtime());
-    let image0 = h.runtime().io().outputs().to_vec();
-    for later in 1..=LATER_CYCLES {
-        h.advance_time(Duration::from_millis(STEP_MS));
-        let res = h.runtime_mut().execute_cycle();
-        let rt = h.runtime();
-        if res != Err(RuntimeError::ResourceFaulted) {
-            return Err(format!(
-                "cycle request {later} after the fault {reported:?} returned {res:?}, expected Err(ResourceFaulted)"
-            ));
-        }
-        if !rt.faulted() {
-            return Err(format!("faulted() became false after refused cycle request {later}"));
-        }
-        let now = counters(rt, model);
-        if now != at_fault {
-            return Err(format!(
-                "refused cycle request {later} executed program statements: site counters {at_fault:?} -> {now:?}"
-            ));
-        }
-        if storage_digest(rt) != digest0 {
-            return Err(format!("refused cycle request {later} changed a variable (storage digest differs)"));
-        }
-        if rt.io().outputs() != image0.as_slice() {
-            return Err(format!(
-                "refused cycle request {later} changed the output image {:?} -> {:?}",
-                image0,
-                rt.io().outputs()
-            ));
-        }
-        let n = shared.lock().unwrap().events.len();
-        if n != events_at_report {
-            let s = shared.lock().unwrap();
-            return Err(format!(
-                "refused cycle request {later} called a driver: {:?}",
-                &s.events[events_at_report..]
-            ));
-        }
-        if safe_due {
-            check_safe(rt, "after a refused cycle request")?;
-        }
-    }
+    probe.label(format!("rounds_checked={rounds_checked}"));
 
-    // ---- restart clears the latch -------------------------------------------------------
+    // ---- restart clears the latch -----------------------------------------------------------
+    let events_before = sess.events();
     let mode = if point.warm_restart { RestartMode::Warm } else { RestartMode::Cold };
-    if let Err(e) = h.runtime_mut().restart(mode) {
-        return Err(format!("restart({mode:?}) after the fault {reported:?} failed: {e:?}"));
+    if let Err(e) = sess.h.runtime_mut().restart(mode) {
+        return Err(format!("restart({mode:?}) after fault #{rounds_checked} failed: {e:?}"));
     }
-    if h.runtime().faulted() {
-        return Err(format!("faulted() is still true after restart({mode:?})"));
+    if sess.h.runtime().faulted() {
+        return Err(format!("faulted() is still true after restart({mode:?}) (after fault #{rounds_checked})"));
     }
-    h.advance_time(Duration::from_millis(STEP_MS));
-    let res = h.runtime_mut().execute_cycle();
+    sess.h.advance_time(Duration::from_millis(STEP_MS));
+    let res = sess.h.runtime_mut().execute_cycle();
     if res == Err(RuntimeError::ResourceFaulted) {
-        return Err(format!("the first cycle after restart({mode:?}) is still refused with ResourceFaulted"));
+        return Err(format!(
+            "the first cycle after restart({mode:?}) (after fault #{rounds_checked}) is still refused with ResourceFaulted"
+        ));
     }
-    if res.is_ok() && h.runtime().faulted() {
+    if res.is_ok() && sess.h.runtime().faulted() {
         return Err(format!("faulted() is true after a successful cycle following restart({mode:?})"));
     }
-    let n = shared.lock().unwrap().events.len();
-    if n == events_at_report {
+    if sess.events() == events_before {
         return Err(format!("the first cycle after restart({mode:?}) did not call any driver"));
     }
 
     if nontrivial {
-        let mut key = model.source.as_bytes().to_vec();
-        key.extend_from_slice(format!("{:?}{:?}", model.safe, point).as_bytes());
-        probe.nontrivial(&key);
-        probe.sample(json!({
-            "point": point,
-            "drivers": nd,
-            "safe_map": model.safe.iter().map(|e| format!("{}={:?}", e.text, e.value)).collect::<Vec<_>>(),
-            "error": format!("{reported:?}"),
-            "program": model.source,
-        }));
+        mark_nontrivial(model, point, nd, &reported, probe);
     }
     Ok(())
 }
 
+fn mark_nontrivial(model: &Model, point: &Point, nd: usize, reported: &RuntimeError, probe: &mut Probe) {
+    let mut key = model.source.as_bytes().to_vec();
+    key.extend_from_slice(format!("{:?}{:?}", model.safe, point).as_bytes());
+    probe.nontrivial(&key);
+    probe.sample(json!({
+        "point": point,
+        "drivers": nd,
+        "safe_map": model.safe.iter().map(|e| format!("{}={:?}", e.text, e.value)).collect::<Vec<_>>(),
+        "error": format!("{reported:?}"),
+        "program": model.source,
+    }));
+}
+
+/// One more round on the same runtime: recover from the previous fault (`next.via`), run
+/// `next.cycle - 1` clean cycles, make the cause of `next.kind` present and run until a
+/// fault surfaces; whatever error surfaces first is fault #`round` and gets the full oracle.
+fn later_round(sess: &mut Session<'_>, round: usize, next: &Next, probe: &mut Probe) -> Result<RoundEnd, String> {
+    let model = sess.model;
+    let via = match next.via {
+        Via::RestartWarm => "restart_warm",
+        Via::RestartCold => "restart_cold",
+        Via::ClearFault => "clear_fault",
+    };
+    match next.via {
+        Via::RestartWarm | Via::RestartCold => {
+            let mode = if next.via == Via::RestartWarm { RestartMode::Warm } else { RestartMode::Cold };
+            if let Err(e) = sess.h.runtime_mut().restart(mode) {
+                return Err(format!("restart({mode:?}) after fault #{} failed: {e:?}", round - 1));
+            }
+            if sess.h.runtime().faulted() {
+                return Err(format!("faulted() is still true after restart({mode:?}) (after fault #{})", round - 1));
+            }
+        }
+        Via::ClearFault => {
+            // `clear_fault()` ("Clear the faulted state (used by tests and tooling)") is not
+            // mentioned by the property: it is only a second route to a second fault and
+            // nothing is asserted about clear_fault itself.
+            sess.h.runtime_mut().clear_fault();
+            if sess.h.runtime().faulted() {
+                return Ok(RoundEnd::NoVerdict("clear_fault_left_faulted"));
+            }
+        }
+    }
+    // clean cycles before the next fault
+    for c in 1..next.cycle {
+        sess.h.advance_time(Duration::from_millis(STEP_MS));
+        match sess.h.runtime_mut().execute_cycle() {
+            Ok(()) => {}
+            Err(RuntimeError::ResourceFaulted) if next.via != Via::ClearFault => {
+                return Err(format!(
+                    "cycle {c} after {via} (after fault #{}) is refused with ResourceFaulted",
+                    round - 1
+                ));
+            }
+            Err(_) => return Ok(RoundEnd::NoVerdict("clean_cycle_after_recovery_returned_error")),
+        }
+    }
+    sess.arm(&next.kind, next.deliver_fail);
+    let in_cycle = matches!(next.kind, Kind::Site { .. } | Kind::Read { .. } | Kind::Write { .. });
+    let mut reported: Option<RuntimeError> = None;
+    if in_cycle {
+        // a site may not be scheduled in the very next cycle (20/30 ms tasks): give it 4
+        let tries = if matches!(next.kind, Kind::Site { .. }) { 4 } else { 1 };
+        for _ in 0..tries {
+            let before = counters(sess.h.runtime(), model);
+            sess.h.advance_time(Duration::from_millis(STEP_MS));
+            match sess.h.runtime_mut().execute_cycle() {
+                Err(RuntimeError::ResourceFaulted) if next.via == Via::ClearFault && reported.is_none() => {
+                    return Ok(RoundEnd::NoVerdict("refused_after_clear_fault"));
+                }
+                Err(e) => {
+                    reported = Some(e);
+                    break;
+                }
+                Ok(()) => {
+                    let after = counters(sess.h.runtime(), model);
+                    match &next.kind {
+                        Kind::Site { site } => {
+                            if before[*site as usize] != after[*site as usize] {
+                                return Err(format!(
+                                    "[fault #{round} of this runtime] the injected runtime error did not surface: site {site} executed (counter {} -> {}) with its faulting value and execute_cycle returned Ok",
+                                    before[*site as usize],
+                                    after[*site as usize]
+                                ));
+                            }
+                        }
+                        _ => {
+                            return Err(format!(
+                                "[fault #{round} of this runtime] the injected driver error did not surface: execute_cycle returned Ok, faulted()={}",
+                                sess.h.runtime().faulted()
+                            ));
+                        }
+                    }
+                }
+            }
+        }
+        if reported.is_none() {
+            return Ok(RoundEnd::NoVerdict("site_not_scheduled_after_recovery"));
+        }
+    } else {
+        let rt = sess.h.runtime_mut();
+        reported = Some(match next.kind {
+            Kind::Watchdog => rt.watchdog_timeout(),
+            _ => rt.simulation_fault("injected by C08, again"),
+        });
+    }
+    let reported = reported.expect("set above");
+    probe.label(format!("round{round}_via={via}"));
+    probe.label(format!("round{round}_kind={}", kind_label(&next.kind)));
+    probe.label(format!("round{round}_error={}", error_label(&reported)));
+    sess.verify_fault(round, &next.kind, &reported)?;
+    Ok(RoundEnd::Checked)
+}
 
 // ---------------------------------------------------------------------------------------
 // The same guarantee through the resource scheduler thread (scheduler.rs)
@@ -1190,6 +1453,9 @@ pub struct RunnerCase {
     pub watchdog: Pol,
     /// a driver whose write_outputs fails once the fault is due
     pub deliver_fail: Option<u32>,
+    /// replay files only, see `PointCase::expect_map`
+    #[serde(default)]
+    pub expect_map: Option<String>,
 }
 
 /// Deterministic clock: every `now()` is 10 ms after the previous one; counts the calls.
@@ -1212,6 +1478,15 @@ const RUNNER_MAX_CYCLES: u64 = 40;
 
 fn check_runner(case: &RunnerCase, probe: &mut Probe) -> Result<(), String> {
     let model = generate(&case.tape);
+    if let Some(want) = &case.expect_map {
+        if *want != map_text(&model) {
+            trouble(format!(
+                "a replay tape no longer generates the configuration it was recorded for (map now [{}], recorded [{want}]); re-record the tape",
+                map_text(&model)
+            ));
+            return Ok(());
+        }
+    }
     let nd = model.ndrivers;
     let site = case.site.map(|s| (s as u64 * model.sites.len() as u64 >> 32) as usize);
     let mut deliver_fail = case.deliver_fail.map(|d| (d as u64 * nd as u64 >> 32) as usize);
@@ -1362,8 +1637,26 @@ fn check_runner(case: &RunnerCase, probe: &mut Probe) -> Result<(), String> {
     Ok(())
 }
 
+fn map_text(model: &Model) -> String {
+    model
+        .safe
+        .iter()
+        .map(|e| format!("{}={:?}", e.text, e.value))
+        .collect::<Vec<_>>()
+        .join(", ")
+}
+
 fn check_case(case: &PointCase, probe: &mut Probe) -> Result<(), String> {
     let model = generate(&case.tape);
+    if let Some(want) = &case.expect_map {
+        if *want != map_text(&model) {
+            trouble(format!(
+                "a replay tape no longer generates the configuration it was recorded for (map now [{}], recorded [{want}]); re-record the tape",
+                map_text(&model)
+            ));
+            return Ok(());
+        }
+    }
     check_point(&model, &case.point, probe)
 }
 
@@ -1396,9 +1689,12 @@ fn run(ctx: &mut RunCtx) {
             watchdog: Pol::SafeHalt,
             deliver_fail: None,
             warm_restart: false,
+            more: Vec::new(),
         },
+        expect_map: None,
     });
     ctx.search("point", replay_strategy, 0, check_case);
+    flush_trouble(ctx);
     let pol = || prop_oneof![Just(Pol::Halt), Just(Pol::SafeHalt)];
     let runner_strategy = (
         tape_strategy(400),
@@ -1413,6 +1709,7 @@ fn run(ctx: &mut RunCtx) {
             policy,
             watchdog,
             deliver_fail,
+            expect_map: None,
         });
     ctx.search("runner", runner_strategy, ctx.tier.pick(400, 8000), check_runner);
     flush_trouble(ctx);
@@ -1449,6 +1746,7 @@ fn run(ctx: &mut RunCtx) {
             let case = PointCase {
                 tape: tape.clone(),
                 point,
+                expect_map: None,
             };
             let j = serde_json::to_value(&case).unwrap();
             let before = ctx.stats.violations.len();
